@@ -526,12 +526,23 @@ func ParentMain(p Prop, tier string, extraArgs []string) int {
 // but on the client side, which none of the properties checked here speaks about (they
 // concern the server's pipeline and pub/sub). Such reports are counted apart and noted, not
 // raised as a violation of the property under check.
+func repoRoot() string {
+	if r := os.Getenv("VERIF_REPO"); r != "" {
+		return strings.TrimRight(r, "/")
+	}
+	return "/repo"
+}
+
+func sdkOnlyRace(blk string) bool {
+	return strings.Contains(blk, repoRoot()+"/client/") && !strings.Contains(blk, repoRoot()+"/server/")
+}
+
 func countRaces(log string) (server, sdkOnly int) {
 	for _, blk := range strings.Split(log, "==================") {
 		if !strings.Contains(blk, "WARNING: DATA RACE") {
 			continue
 		}
-		if strings.Contains(blk, "/repo/client/") && !strings.Contains(blk, "/repo/server/") {
+		if sdkOnlyRace(blk) {
 			sdkOnly++
 		} else {
 			server++
@@ -547,7 +558,7 @@ func firstRace(path string) string {
 	}
 	s := ""
 	for _, blk := range strings.Split(string(b), "==================") {
-		if strings.Contains(blk, "WARNING: DATA RACE") && !(strings.Contains(blk, "/repo/client/") && !strings.Contains(blk, "/repo/server/")) {
+		if strings.Contains(blk, "WARNING: DATA RACE") && !sdkOnlyRace(blk) {
 			s = blk[strings.Index(blk, "WARNING: DATA RACE"):]
 			break
 		}
@@ -691,8 +702,13 @@ func report(p Prop, tier string, seed int64, all []CaseResult, inconclusive []st
 		"violations":  violations,
 	}
 	b, _ := json.MarshalIndent(ev, "", " ")
-	_ = os.MkdirAll(filepath.Join(root, "evidence"), 0o755)
-	_ = os.WriteFile(filepath.Join(root, "evidence", p.ID()+".json"), b, 0o644)
+	evDir := filepath.Join(root, "evidence")
+	if d := os.Getenv("VERIF_EVIDENCE_DIR"); d != "" {
+		// runs against a seeded scratch tree (tools/run_seed_wt.sh) keep their evidence apart
+		evDir = d
+	}
+	_ = os.MkdirAll(evDir, 0o755)
+	_ = os.WriteFile(filepath.Join(evDir, p.ID()+".json"), b, 0o644)
 
 	keys := make([]string, 0, len(stats))
 	for k := range stats {
